@@ -450,6 +450,8 @@ def gen_cfg(rng, gd):
     cfg["random_seed"] = rng.choice([None, 0, 1, 42, 123456789, -7])
     cfg["verbose"] = rng.choice([0, 0, 0, 1, 2, 3])  # logging level: must not change any result
     cfg["derived_batch"] = rng.choice([None, None, 1, 2, 3, 7])  # hook H4, see GDef.graph
+    if rng.random() < 0.12:
+        cfg["memory_limit_gb"] = 1e-9  # documented as safe: only makes the library free memory more often
     return cfg
 
 
